@@ -198,7 +198,7 @@ async def log_phase(ctx, w, fz, fe, base_state, batches):
     w.fe_app['file_store'].read_log_file = read_log_file
     fe.app['file_store'].read_log_file = read_log_file
     await w.create_instance('standard', cores=16)
-    fz.cfg.update({'worker_reject_p': 0, 'fault_schedule_db_p': 0, 'early_job_started_p': 0})
+    fz.cfg.update({'worker_reject_p': 0, 'fault_schedule_db_p': 0, 'early_job_started_p': 0, 'early_job_complete_p': 0})
     await w.pools['standard'].scheduler.schedule_loop_body()
     await fz._drain()
     fz.sync_attempts_from_db()
